@@ -68,9 +68,69 @@ pub fn run(prop: &str, tier: Tier, budget: f64, out: &mut Outcome) -> Result<(),
     }
     if let Some((plans, rule)) = cells_of(prop, tier) {
         out.rule = rule.into();
+        regression_replays(prop, out)?;
         return run_cells(out, plans, budget, 12);
     }
     Err(MachineryError(format!("unknown property {prop}")))
+}
+
+/// Replays the committed regression traces of a property (minimal traces of defects that were
+/// found and repaired). A trace that fails again is a violation; one whose recorded choices are
+/// no longer offered by its cell is counted as stale.
+pub fn regression_replays(prop: &str, out: &mut Outcome) -> Result<(), MachineryError> {
+    let dir = std::path::Path::new(&crate::check::verif_root()).join("regress").join(prop);
+    let Ok(rd) = std::fs::read_dir(&dir) else { return Ok(()) };
+    let mut files: Vec<_> = rd.filter_map(|e| e.ok()).map(|e| e.path()).filter(|p| p.extension().is_some_and(|e| e == "json")).collect();
+    files.sort();
+    let findings = crate::check::load_findings();
+    let mut stale = 0u64;
+    for f in files {
+        let Ok(text) = std::fs::read_to_string(&f) else { continue };
+        let Ok(doc) = serde_json::from_str::<serde_json::Value>(&text) else { continue };
+        if doc["kind"].is_string() {
+            // input-enumeration checks re-enumerate their (small) input sets anyway
+            continue;
+        }
+        let cell_name = doc["cell"].as_str().unwrap_or("");
+        let labels: Vec<String> = doc["choice_labels"].as_array().map(|a| a.iter().filter_map(|v| v.as_str().map(String::from)).collect()).unwrap_or_default();
+        let mut done = false;
+        for tier in [Tier::Quick, Tier::Thorough] {
+            let Some((plans, _)) = cells_of(prop, tier) else { break };
+            for p in plans {
+                if p.cell.cell_name() != cell_name || done {
+                    continue;
+                }
+                done = true;
+                match p.cell.replay_labels_dyn(&labels) {
+                    None => stale += 1,
+                    Some(run) => {
+                        out.regressions_replayed += 1;
+                        out.transitions += run.summary.transitions;
+                        if let Some(v) = &run.violation {
+                            let feats = crate::check::all_features(&p.cell.cell_name(), &run);
+                            if let Some(k) = findings.findings.iter().find(|k| crate::check::matches_known(k, &v.property, &v.oracle, &feats)) {
+                                let line = format!("KNOWN-FINDING: property={} {}", v.property, k.what);
+                                if !out.known_hits.contains(&line) {
+                                    out.known_hits.push(line);
+                                }
+                            } else {
+                                eprintln!("regression trace {} fails again: {} {}", f.display(), v.oracle, v.detail);
+                                out.new_violations.push(f.clone());
+                            }
+                        }
+                    }
+                }
+            }
+            if done {
+                break;
+            }
+        }
+        if !done {
+            stale += 1;
+        }
+    }
+    out.extra.insert("stale_regression_traces".into(), serde_json::json!(stale));
+    Ok(())
 }
 
 pub fn replay(path: &str) -> i32 {
@@ -94,10 +154,14 @@ pub fn replay(path: &str) -> i32 {
     }
     let cell_name = doc["cell"].as_str().unwrap();
     let choices: Vec<u16> = doc["choices"].as_array().unwrap().iter().map(|v| v.as_u64().unwrap() as u16).collect();
+    let labels: Vec<String> = doc["choice_labels"].as_array().map(|a| a.iter().filter_map(|v| v.as_str().map(String::from)).collect()).unwrap_or_default();
     for tier in [Tier::Quick, Tier::Thorough] {
         let Some((plans, _)) = cells_of(prop, tier) else { break };
         for p in plans {
             if p.cell.cell_name() == cell_name {
+                // choose by recorded labels where possible (robust against alphabet changes)
+                let by_labels = if labels.is_empty() { None } else { p.cell.replay_labels_dyn(&labels) };
+                let choices = by_labels.map(|r| r.choices).unwrap_or(choices.clone());
                 match p.cell.replay_dyn(&choices) {
                     Ok(run) => {
                         for s in &run.summary.steps {
